@@ -918,6 +918,8 @@ def ok_payload(r):
         return r[5][0]
     if k == "map_err":
         return ok_payload(r[1])
+    if k == "map_ok":
+        return r[2]
     if k == "ok_or":
         return some_payload(r[1])
     return ("okval", r)
@@ -931,6 +933,8 @@ def err_payload(r):
         return ("closure_result", r[2], err_payload(r[1]))
     if k == "ok_or":
         return r[2]
+    if k == "map_ok":
+        return err_payload(r[1])
     if k == "err_from":
         return ("from", err_payload(r[1]))
     return ("errval", r)
@@ -965,7 +969,7 @@ def discr_of(v, ty="isize"):
         return C(v[6], ty if ty in INT_BITS else "isize")
     if k == "try":
         return discr_of_result(v[1], ty)
-    if k in ("map_err", "err_from", "ok_or"):
+    if k in ("map_err", "err_from", "ok_or", "map_ok"):
         return discr_of_result(v, ty)
     return ("tag", v)
 
@@ -974,7 +978,7 @@ def discr_of_result(r, ty):
     k = r[0]
     if k == "agg" and r[1] == "adt":
         return C(r[6], ty if ty in INT_BITS else "isize")
-    if k == "map_err":
+    if k in ("map_err", "map_ok"):
         return discr_of_result(r[1], ty)
     if k == "err_from":
         return C(1, ty if ty in INT_BITS else "isize")
@@ -1102,6 +1106,54 @@ def _m_map_err(eng, st, callee, args, ev):
     return ("map_err", args[0], args[1])
 
 
+def _m_result_map(eng, st, callee, args, ev):
+    """Result::map(r, closure): Ok payload transformed by the (capture-free or not) closure, tag kept."""
+    r, c = args[0], args[1]
+    canon = None
+    if c[0] == "agg" and c[1] == "closure":
+        canon = c[2]
+    elif c[0] == "closure":
+        canon = c[1]
+    if canon is None:
+        return NotImplemented
+    f = eng.facts.fn_by_canon(canon)
+    if f is None or f.argc != 2:
+        return NotImplemented
+    sub = Engine(eng.facts, max_visits=1, max_steps=400)
+    ps = sub.run(f, [c, ok_payload(r)])
+    ps = [p for p in ps if p.status == "return"]
+    if len(ps) != 1 or [e for e in ps[0].events if e["k"] == "call" and not e.get("modelled")]:
+        return NotImplemented
+    return ("map_ok", r, ps[0].ret)
+
+
+def _tag_test(eng, st, args, want_tag):
+    a = args[0]
+    v = eng.read(st, a[1]) if a[0] == "ref" else a
+    d = discr_of(v)
+    if is_c(d):
+        return TRUE if d[1] == want_tag else FALSE
+    if want_tag == 1:
+        return d
+    return ("tagflip", d)
+
+
+def _m_is_some(eng, st, callee, args, ev):
+    return _tag_test(eng, st, args, 1)
+
+
+def _m_is_none(eng, st, callee, args, ev):
+    return _tag_test(eng, st, args, 0)
+
+
+def _m_is_ok(eng, st, callee, args, ev):
+    return _tag_test(eng, st, args, 0)
+
+
+def _m_is_err(eng, st, callee, args, ev):
+    return _tag_test(eng, st, args, 1)
+
+
 def _m_ok_or(eng, st, callee, args, ev):
     return ("ok_or", args[0], args[1])
 
@@ -1175,6 +1227,11 @@ MODELS = {
     "core::ops::try_trait::Try::branch": _m_try_branch,
     "core::ops::try_trait::FromResidual::from_residual": _m_from_residual,
     "std::result::Result::<T, E>::map_err": _m_map_err,
+    "std::result::Result::<T, E>::map": _m_result_map,
+    "std::option::Option::<T>::is_some": _m_is_some,
+    "std::option::Option::<T>::is_none": _m_is_none,
+    "std::result::Result::<T, E>::is_ok": _m_is_ok,
+    "std::result::Result::<T, E>::is_err": _m_is_err,
     "std::option::Option::<T>::ok_or": _m_ok_or,
     "core::ops::index::Index::index": _m_index,
     "core::ops::index::IndexMut::index_mut": _m_index,
